@@ -250,6 +250,19 @@ def generate(rng, tier, cls):
 
         ops.append({'op': 'generate_stats', 'tree': tn, 'path': []})
 
+    if rng.chance(0.1):
+        # the caller replaces a section's metadata (or just its statistics)
+        # wholesale between two runs
+        path = rng.choice([[], [rng.below(nch)], [rng.below(nch), 0]])
+        ops.append({'op': 'generate_stats', 'tree': tn, 'path': []})
+        ops.append({'op': 'set', 'tree': tn, 'path': path, 'attr': 'meta',
+                    'value': rng.choice([{'path': 'replaced'},
+                                         {'stats': {'custom': 1}},
+                                         {'stats': {'insertions': 99,
+                                                    'files': 99}}])})
+        ops.append({'op': 'generate_stats', 'tree': tn,
+                    'path': rng.choice([[], path])})
+
     if fkinds and rng.chance(0.12):
         # a file section copied (after its statistics were generated) into
         # another change, the copy's diff edited, statistics regenerated
